@@ -48,7 +48,7 @@ def scan_structs(root):
                     if src[j] == '{': depth += 1
                     elif src[j] == '}': depth -= 1
                     j += 1
-                body = re.sub(r'#\[[^\]]*\]', '', src[i:j - 1], flags=re.S)
+                body = re.sub(r'#\[[^\]]*\]', '', src[i:j - 1], flags=re.S).replace('->', '  ')
                 flat = []; d = 0
                 for ch in body:
                     if ch in '({[<': d += 1
